@@ -513,7 +513,7 @@ def run_quiesce(s, J, op, plan, degenerate, results, counts):
     if op.get("twin_liveness") and not claimed and np.isfinite(res["stop_crit"]):
         out.extend(judge_twin_liveness(s, J, res, knobs, op, plan, tol))
     if op.get("liveness_scale") and not claimed and pr.pen.convex and gen.get("rho", 1) <= 0.9 \
-            and quad_like and pr.n >= pr.p + (1 if res["fi"] else 0) + 1 \
+            and quad_like and s.dname != "Huber" and pr.n >= pr.p + (1 if res["fi"] else 0) + 1 \
             and bool(pr.absX.any(axis=0).all()) and np.isfinite(res["stop_crit"]):
         out.append(dict(prop=["C19"], oracle="liveness_scaled_column",
                         sig=sig0 + ("no_convergence_with_scaled_column",),
